@@ -221,8 +221,8 @@ def model_apply(M, op, n):
         w = len(rows[0])
         names = op.get("names")
         if op.get("truncate"):
-            if L == 0:
-                raise OutOfDomain("truncate with an empty curve list: nothing the docstring determines")
+            # "remove any columns which are not included in the Curves (~C) section": with an empty curve list
+            # every column is removed, nothing is created
             w = min(w, L)
         if w < L:
             raise OutOfDomain("set_data array narrower than the curve list")
@@ -786,7 +786,7 @@ def make_machine(ctx, pair):
             t, M = self.target(data)
             L = len(M)
             w = L + data.draw(st.sampled_from([0, 0, 1, 2]))
-            truncate = data.draw(st.sampled_from([False, False, False, True])) and L > 0
+            truncate = data.draw(st.sampled_from([False, False, False, True]))
             if truncate and B_TRUNCATE in avoid:
                 self.excluded = True
                 truncate = False
